@@ -403,15 +403,9 @@ def scalar_family_cases(ctx, cuqi, state, cases, stats):
                                                     dist, condvals, general)
 
 
-def one_scalar_case(ctx, cuqi, state, cases, stats, fam, P, x, n, forms, via, ifaces, method, dist, condvals, general=False):
-    obs = evaluate(dist, method, x, condvals)
-    obs = float(np.asarray(obs).ravel()[0]) if np.size(obs) == 1 else None
-    meta = {"kind": "scalar", "family": fam, "params": P, "x": x, "dim": n, "forms": "".join(forms), "via": via,
-            "ifaces": ifaces, "method": method, "observed": obs}
-    cell = "%s/%s/%s/%s%s" % (fam, "".join(forms) + ("1" if n == 1 else "n"), via, method, "/lnG-cert" if general else "")
-    # ---- independent oracle
+def scalar_oracle(fam, P, x, n, method, obs, forms):
+    """the property itself on the implementation: observed value vs the logarithm of the documented density"""
     doc = doc_logpdf(fam, P, x)
-    fail, sig = None, ""
     if method in ("logpdf", "logd"):
         expected = doc
     elif method in ("pdf", "pdf_own"):
@@ -421,10 +415,29 @@ def one_scalar_case(ctx, cuqi, state, cases, stats, fam, P, x, n, forms, via, if
         for i in range(n):
             P1 = {k: bc(v, n)[i] for k, v in P.items()}
             expected *= doc_cdf1(fam, P1, x[i])
+    fail, sig = None, ""
     if obs is None or not close(obs, expected):
         pred, dsig = DEFECT_CLASS.get(fam, (None, None))
         fail = "%s(%s).%s(%s) with dim %d = %r but the documented density gives %r" % (fam, P, method, x, n, obs, expected)
-        sig = dsig if pred is not None and pred(P, n, method) else "%s.%s|%s" % (fam, method.replace("_own", ""), "".join(forms))
+        sig = dsig if pred is not None and pred(P, n, method) else "%s.%s|%s" % (fam, method.replace("_own", ""), forms)
+    return fail, sig, expected
+
+
+def scalar_observe(cuqi, meta):
+    dist, condvals = build_dist(cuqi, meta["family"], meta["params"], meta["dim"], meta["ifaces"], meta["via"])
+    obs = evaluate(dist, meta["method"], meta["x"], condvals)
+    return float(np.asarray(obs).ravel()[0]) if np.size(obs) == 1 else None
+
+
+def one_scalar_case(ctx, cuqi, state, cases, stats, fam, P, x, n, forms, via, ifaces, method, dist, condvals, general=False):
+    obs = evaluate(dist, method, x, condvals)
+    obs = float(np.asarray(obs).ravel()[0]) if np.size(obs) == 1 else None
+    meta = {"kind": "scalar", "family": fam, "params": P, "x": x, "dim": n, "forms": "".join(forms), "via": via,
+            "ifaces": ifaces, "method": method, "observed": obs}
+    cell = "%s/%s/%s/%s%s" % (fam, "".join(forms) + ("1" if n == 1 else "n"), via, method, "/lnG-cert" if general else "")
+    # ---- independent oracle
+    doc = doc_logpdf(fam, P, x)
+    fail, sig, expected = scalar_oracle(fam, P, x, n, method, obs, "".join(forms))
     # ---- model comparison
     inside = doc > -math.inf
     if method == "cdf" or (inside and obs is not None and math.isfinite(obs)):
@@ -442,18 +455,596 @@ def one_scalar_case(ctx, cuqi, state, cases, stats, fam, P, x, n, forms, via, if
     stats["scalar"] = stats.get("scalar", 0) + 1
 
 
+
+
 # ------------------------------------------------------------------------------------------------
-# state of the three repairable defects (fixes/C04_*.diff): which formula does this tree implement?
+# exact linear algebra in Fractions (certificates for the model, and the independent oracle)
+# ------------------------------------------------------------------------------------------------
+def fr_mat(M):
+    return [[frac(v) for v in r] for r in M]
+
+
+def fr_T(M):
+    return [list(c) for c in zip(*M)]
+
+
+def fr_mv(A, x):
+    return [sum((a * b for a, b in zip(r, x) if a != 0 and b != 0), Fraction(0)) for r in A]
+
+
+def fr_mm(A, B):
+    Bt = fr_T(B)
+    return [[sum((a * b for a, b in zip(r, c) if a != 0 and b != 0), Fraction(0)) for c in Bt] for r in A]
+
+
+def fr_dot(a, b):
+    return sum((u * v for u, v in zip(a, b)), Fraction(0))
+
+
+def fr_solve_det(A, b):
+    """(x, det A) with A x = b by Gaussian elimination over the rationals; (None, 0) when singular"""
+    n = len(A)
+    M = [list(r) + [bi] for r, bi in zip(A, b)]
+    det = Fraction(1)
+    for c in range(n):
+        p = next((r for r in range(c, n) if M[r][c] != 0), None)
+        if p is None:
+            return None, Fraction(0)
+        if p != c:
+            M[c], M[p] = M[p], M[c]
+            det = -det
+        piv = M[c][c]
+        det *= piv
+        for r in range(c + 1, n):
+            if M[r][c] != 0:
+                f = M[r][c] / piv
+                M[r] = [a - f * b_ if b_ != 0 else a for a, b_ in zip(M[r], M[c])]
+    x = [Fraction(0)] * n
+    for r in range(n - 1, -1, -1):
+        x[r] = (M[r][n] - sum((M[r][k] * x[k] for k in range(r + 1, n) if M[r][k] != 0), Fraction(0))) / M[r][r]
+    return x, det
+
+
+# ------------------------------------------------------------------------------------------------
+# Gaussian: 4 parameterisations x storage kinds
+# ------------------------------------------------------------------------------------------------
+GFORMS = {"cov": "FCov", "prec": "FPrec", "sqrtcov": "FSqrtcov", "sqrtprec": "FSqrtprec"}
+GKINDS = {"scalar": "KScalar", "vector": "KVector", "densediag": "KDenseDiag", "densefull": "KDenseFull",
+          "spdiag": "KSpDiag", "spfull": "KSpFull", "spdiabands": "KSpDiaBands"}
+SIG_SQRTCOV = "Gaussian.sqrtcov|dense-non-normal:RRt-instead-of-RtR"
+SIG_DIABANDS = "Gaussian.sqrtprec|sparse-DIA-with-bands:logdet-over-all-stored-entries"
+
+
+def g_dense(meta):
+    """dense array of the matrix the input denotes (for diagonal kinds: the diagonal matrix)"""
+    gk, P, n = meta["gkind"], meta["P"], meta["dim"]
+    if gk == "scalar":
+        return [[P[0] if i == j else 0.0 for j in range(n)] for i in range(n)]
+    if gk in ("vector", "spdiag"):
+        return [[P[i] if i == j else 0.0 for j in range(n)] for i in range(n)]
+    if gk == "spdiabands":
+        import scipy.sparse as spa
+        return spa.dia_matrix((np.array(meta["dia_data"], dtype=float), meta["dia_offsets"]), shape=(n, n)).toarray().tolist()
+    return P
+
+
+def g_param(meta):
+    import scipy.sparse as spa
+    gk, P, n, st = meta["gkind"], meta["P"], meta["dim"], meta.get("storage", "array")
+    if gk == "scalar":
+        v = float(P[0])
+        return {"float": v, "npfloat": np.float64(v), "list": [v], "array": np.array([v])}[st]
+    if gk == "vector":
+        return np.array(P, dtype=float) if st != "list" else [float(v) for v in P]
+    if gk in ("densediag", "densefull"):
+        return np.array(P, dtype=float)
+    if gk == "spdiag":
+        M = spa.diags(np.array(P, dtype=float))
+        return M if st == "dia" else M.tocsr()
+    if gk == "spfull":
+        return spa.csr_matrix(np.array(P, dtype=float)) if st == "csr" else spa.csc_matrix(np.array(P, dtype=float))
+    if gk == "spdiabands":
+        return spa.dia_matrix((np.array(meta["dia_data"], dtype=float), meta["dia_offsets"]), shape=(n, n))
+    raise ValueError(gk)
+
+
+def g_observe(cuqi, meta):
+    """drive the implementation: {"outcome": value | refused_init | refused_logpdf, "value", "rank", "err"}"""
+    import io, contextlib
+    n, form, via = meta["dim"], meta["form"], meta.get("via", "direct")
+    mean = float(meta["mean"][0]) if len(meta["mean"]) == 1 else np.array(meta["mean"], dtype=float)
+    val = g_param(meta)
+    G = cuqi.distribution.Gaussian
+    with warnings.catch_warnings():
+        warnings.simplefilter("ignore")
+        with np.errstate(all="ignore"), contextlib.redirect_stdout(io.StringIO()):
+            try:
+                if via == "direct":
+                    d = G(mean, **{form: val}, geometry=n)
+                elif via == "cond_mean":
+                    d = G(None, **{form: val}, geometry=n)(mean=mean)
+                elif via == "callable":     # parameter = s_ * (value / 2), conditioned on s_ = 2 (exact in floats)
+                    half = val * 0.5 if not isinstance(val, list) else [v * 0.5 for v in val]
+                    if isinstance(half, list):
+                        half = np.array(half)
+                    d = G(mean, **{form: (lambda s_: s_ * half)}, geometry=n)(s_=2.0)
+                elif via == "logd_mean":
+                    d = G(None, **{form: val}, geometry=n)
+                else:
+                    raise ValueError(via)
+            except (ValueError, TypeError, NotImplementedError, np.linalg.LinAlgError) as e:
+                return {"outcome": "refused_init", "err": repr(e)[:200]}
+            x = np.array(meta["x"], dtype=float)
+            try:
+                m = meta["method"]
+                if via == "logd_mean":
+                    v = d.logd(mean, x)
+                    d = d(mean=mean)
+                elif m == "logupdf":
+                    v = d._logupdf(x)
+                else:
+                    v = getattr(d, m)(x)
+            except NotImplementedError as e:
+                return {"outcome": "refused_logpdf", "err": repr(e)[:200]}
+            v = np.asarray(v).ravel()
+            out = {"outcome": "value", "value": float(v[0]) if v.size == 1 else None, "rank": int(d.rank)}
+            if "x2" in meta:      # logpdf - _logupdf at a second point (the un-normalised density differs by a constant)
+                x2 = np.array(meta["x2"], dtype=float)
+                out["const1"] = float(np.ravel(d.logpdf(x))[0] - np.ravel(d._logupdf(x))[0])
+                out["const2"] = float(np.ravel(d.logpdf(x2))[0] - np.ravel(d._logupdf(x2))[0])
+            return out
+
+
+def g_doc_cov(meta):
+    """covariance matrix the DOCUMENTATION assigns to the input (exact), as Fractions"""
+    M = fr_mat(g_dense(meta))
+    form, n = meta["form"], meta["dim"]
+    I = [[Fraction(int(i == j)) for j in range(n)] for i in range(n)]
+    def inv(A):
+        cols = []
+        for j in range(n):
+            xj, det = fr_solve_det(A, [I[i][j] for i in range(n)])
+            if xj is None:
+                return None
+            cols.append(xj)
+        return fr_T(cols)
+    if form == "cov":
+        return M
+    if form == "prec":
+        return inv(M)
+    if form == "sqrtcov":
+        return fr_mm(fr_T(M), M)                 # documented: R^T R = cov
+    return inv(fr_mm(fr_T(M), M))                # documented: R^T R = prec
+
+
+def g_documented(meta):
+    """log of the documented Gaussian density (and the pieces), from exact rationals"""
+    n = meta["dim"]
+    cov = g_doc_cov(meta)
+    d = [frac(a) - frac(b) for a, b in zip(meta["x"], bc(meta["mean"], n))]
+    y, det = fr_solve_det(cov, d)
+    quad = fr_dot(d, y)
+    logdet = math.log(det.numerator) - math.log(det.denominator)
+    lp = -0.5 * (n * LOG2PI + logdet) - 0.5 * float(quad)
+    return {"logpdf": lp, "logd": lp, "pdf": math.exp(lp), "logupdf": -0.5 * float(quad)}
+
+
+def g_is_normal(meta):
+    M = fr_mat(g_dense(meta))
+    return fr_mm(M, fr_T(M)) == fr_mm(fr_T(M), M)
+
+
+def g_oracle(meta, ob):
+    """(fail, signature) of the property on the implementation for one Gaussian evaluation"""
+    gk, form = meta["gkind"], meta["form"]
+    if meta.get("malformed"):
+        if ob["outcome"] == "value":
+            return ("Gaussian(%s=<%s>) is not a valid input (%s) but was accepted and logpdf = %r" % (form, gk, meta["malformed"], ob.get("value")),
+                    "Gaussian.%s|malformed-accepted:%s" % (form, meta["malformed"]))
+        return None, ""
+    if ob["outcome"] != "value":
+        if gk in ("spfull", "spdiabands"):
+            return None, ""                      # refusing a sparse full matrix without cholmod is not a wrong number
+        return ("Gaussian(%s=<%s>, dim %d).%s is refused (%s: %s) although the documented density is defined" % (
+                form, gk, meta["dim"], meta["method"], ob["outcome"], ob.get("err")), "Gaussian.%s|%s:refused" % (form, gk))
+    doc = g_documented(meta)
+    exp = doc[meta["method"]]
+    v = ob["value"]
+    if v is None or not close(v, exp):
+        if gk == "spdiabands" and form == "sqrtprec":
+            sig = SIG_DIABANDS
+        elif form == "sqrtcov" and gk in ("densefull", "spfull") and not g_is_normal(meta):
+            sig = SIG_SQRTCOV
+        else:
+            sig = "Gaussian.%s|%s:%s" % (meta["method"], form, gk)
+        return ("Gaussian(mean=%s, %s=<%s %s>, dim %d).%s(%s) = %r but the documented density (cov = %s) gives %r" % (
+                meta["mean"], form, gk, g_dense(meta) if meta["dim"] <= 5 else "...", meta["dim"], meta["method"], meta["x"], v,
+                {"cov": "M", "prec": "M^-1", "sqrtcov": "M^T M", "sqrtprec": "(M^T M)^-1"}[form], exp), sig)
+    if ob.get("rank") is not None and ob["rank"] != meta["dim"]:
+        return "Gaussian rank %r for a positive definite input of dim %d" % (ob["rank"], meta["dim"]), "Gaussian.rank|%s:%s" % (form, gk)
+    if "const1" in ob and not close(ob["const1"], ob["const2"], 1e-8):
+        return ("Gaussian logpdf - _logupdf depends on x: %r at %s, %r at %s" % (ob["const1"], meta["x"], ob["const2"], meta["x2"]),
+                "Gaussian._logupdf|not-a-constant:%s:%s" % (form, gk))
+    return None, ""
+
+
+def g_case(ctx, cuqi, state, cases, stats, meta, cell):
+    ob = g_observe(cuqi, meta)
+    meta = dict(meta, observed=ob)
+    fail, sig = g_oracle(meta, ob)
+    n, form, gk = meta["dim"], meta["form"], meta["gkind"]
+    F, K = GFORMS[form], GKINDS[gk]
+    M = g_dense(meta)
+    sym = fr_mat(M) == fr_T(fr_mat(M))
+    model_out = "(gauss_outcome %s %s %s %s)" % (cbool(state["dia_fixed"]), F, K, cbool(sym))
+    stats["gaussian"] = stats.get("gaussian", 0) + 1
+    if ob["outcome"] != "value":
+        obs_out = {"refused_init": "OutRefusedInit", "refused_logpdf": "OutRefusedLogpdf"}[ob["outcome"]]
+        cases.append(Case(expr="gout_eqb %s %s" % (model_out, obs_out), kind="DECISION", meta=meta, cell=cell + "/refused",
+                          impl_fail=fail, signature=sig))
+        return
+    obs_out = "OutBandLogdet" if (gk == "spdiabands" and form == "sqrtprec") else "OutValue"
+    dec = "gout_eqb %s %s" % (model_out, obs_out)
+    v = ob["value"]
+    method = meta["method"]
+    xs, mean = meta["x"], meta["mean"]
+    d = [frac(a) - frac(b) for a, b in zip(xs, bc(mean, n))]
+    if gk == "spdiabands" and form == "sqrtprec":
+        data = [a for row in meta["dia_data"] for a in row]
+        z = fr_mv(fr_mat(M), d)
+        quad = fr_dot(z, z)
+        if v is None or not math.isfinite(v):
+            expr = "%s && check_dec (band_has_zero %s) %s" % (dec, cql(data), cbool(v == -math.inf or (method == "pdf" and v == 0.0)))
+            cases.append(Case(expr=expr, kind="DECISION", meta=meta, cell=cell, impl_fail=fail, signature=sig))
+            return
+        cert = "%s && negb (band_has_zero %s) && Qeq_bool (let z := qmv %s %s in qdotq z z) %s" % (dec, cql(data), cqm(M), cql(d), cq(quad))
+        m = "(gauss_canon %s (gauss_band_logdet %s) %s)" % (cnat(n), crl(data), cr(quad))
+    elif gk in ("scalar", "vector", "densediag", "spdiag"):
+        p = meta["P"] if gk in ("scalar", "vector", "spdiag") else [M[i][i] for i in range(n)]
+        cert = dec + " && Nat.eqb %s %s" % (cnat(ob["rank"]), cnat(n))
+        if method == "logupdf":
+            m = "(gauss_logupdf (gd_quad %s %s %s %s))" % (F, crl(p), crl(mean), crl(xs))
+        else:
+            m = "(gauss_diag_logpdf %s %s %s %s %s %s)" % (F, cbool(gk == "scalar"), cnat(n), crl(p), crl(mean), crl(xs))
+    else:   # dense full (the sparse-full kinds never reach a value)
+        Mf = fr_mat(M)
+        if form in ("cov", "sqrtcov"):
+            S = Mf if form == "cov" else fr_mm(Mf, fr_T(Mf))          # the covariance the CODE forms
+            y, det = fr_solve_det(S, d)
+            dcov, quad = det, fr_dot(d, y)
+        else:
+            S = Mf if form == "prec" else fr_mm(Mf, fr_T(Mf))
+            _, det = fr_solve_det(S, d)
+            dcov = 1 / det
+            y = []
+            z = fr_mv(Mf, d)
+            quad = fr_dot(d, z) if form == "prec" else fr_dot(z, z)
+        cert = "%s && gauss_dense_cert %s %s %s %s %s %s %s %s" % (dec, F, cnat(n), cqm(M), cql(y), cql(d), cq(dcov), cq(quad), cnat(ob["rank"]))
+        if method == "logupdf":
+            m = "(gauss_logupdf %s)" % cr(quad)
+        else:
+            m = "(gauss_canon %s (ln %s) %s)" % (cnat(n), cr(dcov), cr(quad))
+    if method == "pdf":
+        m = "(exp %s)" % m
+    if v is None or not math.isfinite(v):
+        cases.append(Case(expr="false", kind="DECISION", meta=meta, cell=cell, impl_fail=fail or "non-finite value %r" % v,
+                          signature=sig or "Gaussian.%s|non-finite" % method))
+        return
+    expr, tac = encl(m, v, cert="(%s)" % cert)
+    cases.append(Case(expr=expr, tac=tac, kind="ENCLOSURE", meta=meta, cell=cell, impl_fail=fail, signature=sig))
+
+
+def rand_unit_lower(rng, n, lo=-1, hi=1):
+    return [[1 if i == j else (rng.randint(lo, hi) if j < i else 0) for j in range(n)] for i in range(n)]
+
+
+def inv_unit_lower(U):
+    n = len(U)
+    I = [[Fraction(int(i == j)) for j in range(n)] for i in range(n)]
+    cols = []
+    for j in range(n):
+        xj, _ = fr_solve_det(fr_mat(U), [I[i][j] for i in range(n)])
+        cols.append(xj)
+    return fr_T(cols)
+
+
+def gaussian_cases(ctx, cuqi, state, cases, stats):
+    rng = ctx.rng
+    counter = 0
+    pos = lambda: rng.randint(2, 32) / 8
+    pt = lambda n: [rng.randint(-16, 16) / 8 for _ in range(n)]
+    sc_ifaces = ["float", "npfloat", "list", "array"]
+    for n in [1, 2, 3, 5]:
+        for form in GFORMS:
+            kinds = ["scalar"] if n == 1 else ["scalar", "vector", "densediag", "densefull", "spdiag"]
+            for gk in kinds:
+                for rep in range(ctx.n(1, 5)):
+                    counter += 1
+                    mean = pt(1) if counter % 2 == 0 else pt(n)
+                    meta = {"kind": "gaussian", "form": form, "gkind": gk, "dim": n, "mean": mean}
+                    if gk == "scalar":
+                        meta["P"], meta["storage"] = [pos()], sc_ifaces[counter % 4]
+                    elif gk == "vector":
+                        meta["P"], meta["storage"] = [pos() for _ in range(n)], ["array", "list"][counter % 2]
+                    elif gk == "spdiag":
+                        meta["P"], meta["storage"] = [pos() for _ in range(n)], ["dia", "csr"][counter % 2]
+                    elif gk == "densediag":
+                        dg = [pos() for _ in range(n)]
+                        meta["P"] = [[dg[i] if i == j else 0.0 for j in range(n)] for i in range(n)]
+                    else:
+                        U = rand_unit_lower(rng, n)
+                        D = [rng.choice([0.5, 1.0, 2.0]) for _ in range(n)]
+                        L = [[Fraction(U[i][j]) * frac(D[j]) for j in range(n)] for i in range(n)]
+                        Li = [[inv_unit_lower(U)[i][j] / frac(D[i]) for j in range(n)] for i in range(n)]     # (U D)^-1 = D^-1 U^-1
+                        if form == "cov":
+                            Mx = fr_mm(L, fr_T(L))
+                        elif form == "prec":
+                            Mx = fr_mm(fr_T(Li), Li)
+                        elif form == "sqrtcov":
+                            Mx = fr_mm(L, fr_T(L))          # a SYMMETRIC square root: cov = M^2 in both readings
+                        else:
+                            Mx = Li if rep % 2 == 0 else [[Fraction(rng.randint(-2, 2)) + (3 if i == j else 0) for j in range(n)] for i in range(n)]
+                        meta["P"] = [[float(v) for v in r] for r in Mx]
+                    vias = ["direct"] + ([["cond_mean", "callable", "logd_mean"][counter % 3]] if gk in ("scalar", "vector", "densefull") else [])
+                    for via in vias:
+                        for method in (["logpdf", "logd", "pdf", "logupdf"] if via == "direct" else ["logpdf"]):
+                            if via == "logd_mean":
+                                method = "logd"
+                            m2 = dict(meta, via=via, method=method, x=pt(n))
+                            if method == "logpdf" and via == "direct":
+                                m2["x2"] = pt(n)
+                            g_case(ctx, cuqi, state, cases, stats, m2, "Gaussian/%s/%s/%s/%s/%s" % (form, gk, "1" if n == 1 else "n", via, method))
+        if n == 1:
+            continue
+        # one covariance pushed through the four parameterisations (documented reading): cov=S, prec=S^-1, sqrtprec=L^-1, sqrtcov=L^T
+        for rep in range(ctx.n(1, 4)):
+            U = rand_unit_lower(rng, n)
+            D = [rng.choice([0.5, 1.0, 2.0]) for _ in range(n)]
+            if all(U[i][j] == 0 for i in range(n) for j in range(i)):
+                U[n - 1][0] = 1
+            L = [[Fraction(U[i][j]) * frac(D[j]) for j in range(n)] for i in range(n)]
+            Ui = inv_unit_lower(U)
+            Li = [[Ui[i][j] / frac(D[i]) for j in range(n)] for i in range(n)]
+            same = {"cov": fr_mm(L, fr_T(L)), "prec": fr_mm(fr_T(Li), Li), "sqrtprec": Li, "sqrtcov": fr_T(L)}
+            mean, x = pt(n), pt(n)
+            vals = {}
+            for form, Mx in same.items():
+                meta = {"kind": "gaussian", "form": form, "gkind": "densefull", "dim": n, "mean": mean, "via": "direct", "method": "logpdf",
+                        "P": [[float(v) for v in r] for r in Mx], "x": x, "same_sigma": True}
+                g_case(ctx, cuqi, state, cases, stats, meta, "Gaussian/same-Sigma/%s/n" % form)
+                vals[form] = cases[-1].meta["observed"].get("value")
+            agree = [f for f in ("cov", "prec", "sqrtprec") if vals[f] is not None]
+            if len(agree) == 3 and not (close(vals["cov"], vals["prec"], 1e-8) and close(vals["cov"], vals["sqrtprec"], 1e-8)):
+                cases[-1].impl_fail = "one Gaussian given as cov / prec / sqrtprec has logpdf %r" % vals
+                cases[-1].signature = "Gaussian.logpdf|forms-disagree"
+        # sqrtcov = lower Cholesky factor (what the repo's suite passes): non-normal, the code reads it as R R^T
+        for rep in range(ctx.n(1, 3)):
+            U = rand_unit_lower(rng, n)
+            U[n - 1][0] = rng.choice([-1, 1])
+            D = [rng.choice([0.5, 1.0, 2.0]) for _ in range(n)]
+            L = [[float(Fraction(U[i][j]) * frac(D[j])) for j in range(n)] for i in range(n)]
+            meta = {"kind": "gaussian", "form": "sqrtcov", "gkind": "densefull", "dim": n, "mean": pt(n), "via": "direct", "method": "logpdf", "P": L, "x": pt(n)}
+            g_case(ctx, cuqi, state, cases, stats, meta, "Gaussian/sqrtcov/densefull-lower-factor/n")
+        # malformed / refused inputs
+        for form in ("cov", "prec"):
+            A = [[float(rng.randint(-2, 2) + (4 if i == j else 0)) for j in range(n)] for i in range(n)]
+            A[0][n - 1] = A[n - 1][0] + 1.0
+            meta = {"kind": "gaussian", "form": form, "gkind": "densefull", "dim": n, "mean": pt(n), "via": "direct", "method": "logpdf", "P": A, "x": pt(n),
+                    "malformed": "non-symmetric"}
+            g_case(ctx, cuqi, state, cases, stats, meta, "Gaussian/%s/densefull-nonsymmetric/refusal" % form)
+        for form in GFORMS:
+            T = [[2.0 if i == j else (-0.5 if abs(i - j) == 1 else 0.0) for j in range(n)] for i in range(n)]
+            if form in ("sqrtcov", "sqrtprec"):
+                T = [[T[i][j] if j <= i else 0.0 for j in range(n)] for i in range(n)]
+            meta = {"kind": "gaussian", "form": form, "gkind": "spfull", "storage": ["csr", "csc"][n % 2], "dim": n, "mean": pt(n), "via": "direct",
+                    "method": "logpdf", "P": T, "x": pt(n)}
+            g_case(ctx, cuqi, state, cases, stats, meta, "Gaussian/%s/spfull/refusal" % form)
+        # sparse DIA storage with off-diagonal bands (the docstring's own sqrtprec example is of this kind)
+        for form in GFORMS:
+            for padded in ([False, True] if form == "sqrtprec" else [False]):
+                main = [float(rng.choice([1, 2, 4])) / 2 for _ in range(n)]
+                off = [float(rng.choice([-2, -1, 1, 2])) for _ in range(n)]
+                if form in ("cov", "prec"):
+                    main = [m_ + 4 for m_ in main]
+                    data, offsets = [main, [0.0] + off[1:], off[1:] + [0.0]], [0, 1, -1]
+                else:
+                    off[0] = float(rng.choice([1, 3])) if padded else 0.0     # scipy.sparse.diags pads the unused slot with 0
+                    data, offsets = [main, off], [0, 1]
+                meta = {"kind": "gaussian", "form": form, "gkind": "spdiabands", "dim": n, "mean": pt(n), "via": "direct", "method": "logpdf",
+                        "P": None, "dia_data": data, "dia_offsets": offsets, "x": pt(n)}
+                g_case(ctx, cuqi, state, cases, stats, meta, "Gaussian/%s/spdiabands%s" % (form, "-nonzero-padding" if padded else ""))
+    # both sides of the dense/sparse storage switch (MIN_DIM_SPARSE = 75)
+    thr = int(cuqi.config.MIN_DIM_SPARSE)
+    for n in [thr - 1, thr, thr + 1, thr + 2]:
+        for form in GFORMS:
+            for gk in ["scalar", "vector", "spdiag", "densefull"]:
+                if gk == "densefull" and not ctx.thorough and n in (thr - 1, thr + 2):
+                    continue
+                mean = pt(1) if (n + len(gk)) % 2 == 0 else pt(n)
+                meta = {"kind": "gaussian", "form": form, "gkind": gk, "dim": n, "mean": mean, "via": "direct", "method": "logpdf", "x": pt(n)}
+                if gk == "scalar":
+                    meta["P"], meta["storage"] = [pos()], "float"
+                elif gk in ("vector", "spdiag"):
+                    meta["P"], meta["storage"] = [pos() for _ in range(n)], ("array" if gk == "vector" else "csr")
+                else:
+                    # banded SPD (cov, prec: tridiagonal; sqrtcov: symmetric tridiagonal; sqrtprec: upper bidiagonal)
+                    dg = [float(rng.choice([2, 3, 4])) for _ in range(n)]
+                    of = [float(rng.choice([-1, 0, 1])) / 2 for _ in range(n - 1)]
+                    if form == "sqrtprec":
+                        meta["P"] = [[dg[i] / 2 if i == j else (of[i] if j == i + 1 else 0.0) for j in range(n)] for i in range(n)]
+                    else:
+                        meta["P"] = [[dg[i] if i == j else (of[min(i, j)] if abs(i - j) == 1 else 0.0) for j in range(n)] for i in range(n)]
+                g_case(ctx, cuqi, state, cases, stats, meta, "Gaussian/%s/%s/dim%s%d" % (form, gk, "=thr" if n == thr else ("<thr" if n < thr else ">thr"), abs(n - thr)))
+
+
+# ------------------------------------------------------------------------------------------------
+# Markov random fields: GMRF / LMRF / CMRF
+# ------------------------------------------------------------------------------------------------
+BCS = {"zero": "BZero", "periodic": "BPeriodic", "neumann": "BNeumann"}
+SIG_GMRF0 = "GMRF.logpdf|order0-periodic/neumann:rank-dim-1"
+SIG_GMRF2N = "GMRF.logpdf|order2-neumann:rank-and-logdet"
+
+
+def mrf_build(cuqi, meta):
+    import io, contextlib
+    fam, N, twod = meta["family"], meta["N"], meta["twod"]
+    dim = N * N if twod else N
+    loc = float(meta["loc"][0]) if len(meta["loc"]) == 1 else np.array(meta["loc"], dtype=float)
+    if twod:
+        geom = {"tuple": (N, N), "Image2D": cuqi.geometry.Image2D((N, N))}[meta["geom"]]
+    else:
+        geom = {"int": N, "Continuous1D": cuqi.geometry.Continuous1D(N)}[meta["geom"]]
+    par = meta["par"] if meta.get("par_iface", "float") == "float" else np.array([meta["par"]])
+    with contextlib.redirect_stdout(io.StringIO()), warnings.catch_warnings():
+        warnings.simplefilter("ignore")
+        if fam == "GMRF":
+            return cuqi.distribution.GMRF(loc, par, meta["bc"], meta["order"], geometry=geom)
+        return getattr(cuqi.distribution, fam)(loc, meta["par"], meta["bc"], geometry=geom)
+
+
+def mrf_observe(cuqi, meta):
+    d = mrf_build(cuqi, meta)
+    x = np.array(meta["x"], dtype=float)
+    with np.errstate(all="ignore"), warnings.catch_warnings():
+        warnings.simplefilter("ignore")
+        v = getattr(d, meta["method"])(x)
+    D = np.asarray(d._diff_op.get_matrix().todense(), dtype=float)
+    out = {"value": float(np.ravel(v)[0]), "D": D.tolist()}
+    if meta["family"] == "GMRF":
+        out["rank"] = int(d._rank)
+    return out
+
+
+def mrf_documented(meta, D):
+    """documented density, given the difference operator D of cuqi.operator (the subject of C20)"""
+    fam = meta["family"]
+    dim = len(meta["x"])
+    sh = [a - b for a, b in zip(meta["x"], bc(meta["loc"], dim))]
+    dd = [sum(D[i][j] * sh[j] for j in range(dim)) for i in range(len(D))]
+    par = meta["par"]
+    if fam == "LMRF":       # product over the differences of Laplace(0, b)
+        lp = sum(math.log(1 / (2 * par)) - abs(t) / par for t in dd)
+    elif fam == "CMRF":     # product over the differences of Cauchy(0, gamma)
+        lp = sum(-math.log(math.pi * par * (1 + (t / par) ** 2)) for t in dd)
+    else:                   # the (possibly intrinsic) Gaussian N(mean, (prec * D^T D)^-1): true rank and pseudo-determinant
+        P = par * (np.array(D).T @ np.array(D))
+        ev = np.linalg.eigvalsh(P)
+        nz = ev[ev > 1e-9 * ev.max()]
+        lp = 0.5 * (-len(nz) * LOG2PI + float(np.sum(np.log(nz)))) - 0.5 * par * sum(t * t for t in dd)
+    return lp if meta["method"] != "pdf" else math.exp(lp)
+
+
+def mrf_case(ctx, cuqi, state, cases, stats, meta, cell):
+    ob = mrf_observe(cuqi, meta)
+    D = ob.pop("D")
+    meta = dict(meta, observed=ob)
+    fam, N, twod, order, bcn = meta["family"], meta["N"], meta["twod"], meta["order"], meta["bc"]
+    dim = N * N if twod else N
+    exp = mrf_documented(meta, D)
+    v = ob["value"]
+    fail, sig = None, ""
+    if not close(v, exp, 1e-8):
+        fail = "%s(%s, %s, bc=%s%s, %s).%s(%s) = %r but the documented density gives %r" % (
+            fam, meta["loc"], meta["par"], bcn, ", order=%d" % order if fam == "GMRF" else "", "%dx%d" % (N, N) if twod else N, meta["method"], meta["x"], v, exp)
+        if fam == "GMRF" and order == 0 and bcn in ("periodic", "neumann"):
+            sig = SIG_GMRF0
+        elif fam == "GMRF" and order == 2 and bcn == "neumann":
+            sig = SIG_GMRF2N
+        else:
+            sig = "%s.%s|%s%s" % (fam, meta["method"], bcn, ":order%d" % order if fam == "GMRF" else "")
+    stats["mrf"] = stats.get("mrf", 0) + 1
+    # certificate data: dd = D (x - loc) exactly; the model checks it against ITS difference operator
+    sh = [frac(a) - frac(b) for a, b in zip(meta["x"], bc(meta["loc"], dim))]
+    Df = [[Fraction(int(round(e))) for e in r] for r in D]
+    dd = fr_mv(Df, sh)
+    B = BCS[bcn]
+    if fam == "GMRF":
+        if order == 2 and bcn == "neumann":
+            expr = "match gmrf_detarg 2 BNeumann [] with None => true | Some _ => false end"     # the model assigns no value: logdet of a zero eigenvalue
+            cases.append(Case(expr=expr, kind="DECISION", meta=meta, cell=cell, impl_fail=fail, signature=sig))
+            return
+        # the number whose log the code takes: det P (zero b.c.), product of the dim-1 largest eigenvalues otherwise
+        P = fr_mm(fr_T(Df), Df)
+        if bcn == "zero":
+            _, detarg = fr_solve_det(P, [Fraction(0)] * dim)
+        elif order == 0:
+            detarg = P[0][0] ** (dim - 1)
+        else:
+            detarg = Fraction(0)
+            for i in range(dim):
+                Mi = [[P[r][c] for c in range(dim) if c != i] for r in range(dim) if r != i]
+                detarg += fr_solve_det(Mi, [Fraction(0)] * (dim - 1))[1]
+        cert = "gmrf_cert %s %s %s %s %s %s %s %s %s" % (cnat(order), B, cbool(twod), cnat(N), cql(meta["loc"]), cql(meta["x"]), cql(dd), cnat(ob["rank"]), cq(detarg))
+        m = "(gmrf_logpdf %s %s %s %s)" % (cnat(ob["rank"]), cr(meta["par"]), cr(detarg), crl(dd))
+    else:
+        cert = "mrf_cert 1%%nat %s %s %s %s %s %s" % (B, cbool(twod), cnat(N), cql(meta["loc"]), cql(meta["x"]), cql(dd))
+        if fam == "LMRF":
+            m = "(%s %s %s)" % ("lmrf_pdf" if meta["method"] == "pdf" else "lmrf_logpdf", cr(meta["par"]), crl(dd))
+        else:
+            m = "(cmrf_logpdf %s %s)" % (cr(meta["par"]), crl(dd))
+    if meta["method"] == "pdf" and fam != "LMRF":
+        m = "(exp %s)" % m
+    if not math.isfinite(v):
+        cases.append(Case(expr="false", kind="DECISION", meta=meta, cell=cell, impl_fail=fail or "non-finite", signature=sig or "%s|non-finite" % fam))
+        return
+    expr, tac = encl(m, v, cert="(%s)" % cert)
+    cases.append(Case(expr=expr, tac=tac, kind="ENCLOSURE", meta=meta, cell=cell, impl_fail=fail, signature=sig))
+
+
+def mrf_cases(ctx, cuqi, state, cases, stats):
+    rng = ctx.rng
+    counter = 0
+    for fam in ["GMRF", "LMRF", "CMRF"]:
+        for bcn in BCS:
+            for order in ([0, 1, 2] if fam == "GMRF" else [1]):
+                for twod in [False, True]:
+                    sizes = ([3, 4, 5, 7] if not twod else ([3, 4] if (fam != "GMRF" or bcn == "zero" or ctx.thorough) else [3]))
+                    if order == 2 and bcn == "neumann" and twod:
+                        sizes = [4]
+                    for N in (sizes if ctx.thorough else sizes[(counter % 2)::2] or sizes[:1]):
+                        for rep in range(ctx.n(1, 3)):
+                            counter += 1
+                            dim = N * N if twod else N
+                            loc = [rng.randint(-8, 8) / 4] if counter % 2 == 0 else [rng.randint(-8, 8) / 4 for _ in range(dim)]
+                            meta = {"kind": "mrf", "family": fam, "bc": bcn, "order": order, "twod": twod, "N": N, "loc": loc,
+                                    "par": rng.randint(2, 24) / 8, "par_iface": ["float", "array"][counter % 2] if fam == "GMRF" else "float",
+                                    "geom": (["tuple", "Image2D"] if twod else ["int", "Continuous1D"])[counter % 2]}
+                            methods = ["logpdf", "logd"] + (["pdf"] if fam == "LMRF" else [])
+                            for method in methods:
+                                m2 = dict(meta, method=method, x=[rng.randint(-8, 8) / 4 for _ in range(dim)])
+                                mrf_case(ctx, cuqi, state, cases, stats, m2, "%s/%s/order%d/%s/%s" % (fam, bcn, order, "2d" if twod else "1d", method))
+
+
+# ------------------------------------------------------------------------------------------------
+# state of the repairable defects (fixes/C04_*.diff): which formula does this tree implement?
 # ------------------------------------------------------------------------------------------------
 def witness_values(cuqi):
+    import io, contextlib
+    import scipy.sparse as spa
     D = cuqi.distribution
     x3 = np.array([0.5, 0.5, 0.5])
     w = {}
-    w["uniform"] = float(D.Uniform(0.0, 2.0, geometry=3).logpdf(x3))                  # documented: 3 log(1/2)
-    w["slap"] = float(D.SmoothedLaplace(0.0, 2.0, 0.5, geometry=3).logpdf(x3))        # documented: 3 log(1/4) - 3 sqrt(.75)/2
-    w["cauchy_cdf"] = float(D.Cauchy(0.0, 2.0, geometry=3).cdf(x3))                   # documented: F^3
-    m = D.ModifiedHalfNormal(2.0, 3.0, -1.0)
-    w["mhn"] = float(m.logpdf(np.array([0.5])))                                        # documented: log(.5) - .75 - .5
+    with contextlib.redirect_stdout(io.StringIO()), warnings.catch_warnings(), np.errstate(all="ignore"):
+        warnings.simplefilter("ignore")
+        w["uniform"] = float(D.Uniform(0.0, 2.0, geometry=3).logpdf(x3))                  # documented: 3 log(1/2)
+        w["slap"] = float(D.SmoothedLaplace(0.0, 2.0, 0.5, geometry=3).logpdf(x3))        # documented: 3 log(1/4) - 3 sqrt(.75)/2
+        w["cauchy_cdf"] = float(D.Cauchy(0.0, 2.0, geometry=3).cdf(x3))                   # documented: F^3
+        m = D.ModifiedHalfNormal(2.0, 3.0, -1.0)
+        w["mhn"] = float(m.logpdf(np.array([0.5])))                                        # documented: log(.5) - .75 - .5
+        # sqrtcov = lower factor [[1,0],[1,1]]: documented cov = R^T R = [[2,1],[1,1]]; the code uses R R^T = [[1,1],[1,2]]
+        g = D.Gaussian(np.zeros(2), sqrtcov=np.array([[1.0, 0.0], [1.0, 1.0]]))
+        w["sqrtcov"] = float(np.ravel(g.logpdf(np.array([1.0, 0.0])))[0])                  # documented: -log(2 pi) - 1/2 ; code: -log(2 pi) - 1
+        # the docstring's sparse sqrtprec example (upper bidiagonal, DIA storage): det(prec) = 1
+        try:
+            g = D.Gaussian(np.zeros(3), sqrtprec=spa.diags([1, -1], [0, 1], shape=(3, 3)))
+            w["dia"] = float(np.ravel(g.logpdf(np.array([1.0, 0.0, 0.0])))[0])            # documented: -1.5 log(2 pi) - 1/2
+        except NotImplementedError:
+            w["dia"] = "refused"
+        g0 = D.GMRF(np.zeros(5), 2.0, "periodic", 0)
+        w["gmrf0"] = float(g0.logpdf(np.zeros(5)))                                         # documented: 2.5 (log 2 - log 2 pi)
+        g2 = D.GMRF(np.zeros(5), 2.0, "neumann", 2)
+        w["gmrf2n"] = float(g2.logpdf(np.zeros(5)))                                        # documented: rank 3, pdet(2 D^T D)
+        w["gmrf2n_rank"] = int(g2._rank)
     return w
 
 
@@ -463,6 +1054,7 @@ def detect_state(cuqi):
     return {"uniform_fixed": close(w["uniform"], 3 * math.log(0.5)),
             "slap_fixed": close(w["slap"], 3 * math.log(0.25) - 3 * math.sqrt(0.75) / 2),
             "cauchy_cdf_fixed": close(w["cauchy_cdf"], F ** 3),
+            "dia_fixed": w["dia"] == "refused",
             "witness": w}
 
 
@@ -479,35 +1071,93 @@ def known_witnesses(ctx):
         "Cauchy(0,2,geometry=3).cdf([.5,.5,.5]) = %r (sum of marginals), documented product %r" % (w["cauchy_cdf"], F ** 3))
     out["ModifiedHalfNormal.beta/gamma|getters-return-alpha"] = (not close(w["mhn"], math.log(0.5) - 0.75 - 0.5),
         "ModifiedHalfNormal(2,3,-1).logpdf([.5]) = %r, documented (up to the constant) %r" % (w["mhn"], math.log(0.5) - 0.75 - 0.5))
-    out.update(gaussian_witnesses(cuqi))
+    out[SIG_SQRTCOV] = (not close(w["sqrtcov"], -LOG2PI - 0.5),
+        "Gaussian(0, sqrtcov=[[1,0],[1,1]]).logpdf([1,0]) = %r; documented (cov = R^T R) %r; the code forms R R^T" % (w["sqrtcov"], -LOG2PI - 0.5))
+    out[SIG_DIABANDS] = (w["dia"] != "refused" and not close(w["dia"], -1.5 * LOG2PI - 0.5),
+        "Gaussian(zeros(3), sqrtprec=scipy.sparse.diags([1,-1],[0,1],shape=(3,3))).logpdf([1,0,0]) = %r, documented %r" % (w["dia"], -1.5 * LOG2PI - 0.5))
+    out[SIG_GMRF0] = (not close(w["gmrf0"], 2.5 * (math.log(2) - LOG2PI)),
+        "GMRF(zeros(5),2,'periodic',order=0).logpdf(0) = %r, documented N(0, I/2): %r" % (w["gmrf0"], 2.5 * (math.log(2) - LOG2PI)))
+    # order 2 neumann, n = 5: D^T D has eigenvalues with product (non-zero ones) = pdet; true rank 3
+    Dn = np.array([[-1, 2, -1, 0, 0], [0, -1, 2, -1, 0], [0, 0, -1, 2, -1]], dtype=float)
+    ev = np.linalg.eigvalsh(2 * Dn.T @ Dn)
+    nz = ev[ev > 1e-9]
+    doc = 0.5 * (-len(nz) * LOG2PI + float(np.sum(np.log(nz))))
+    out[SIG_GMRF2N] = (not close(w["gmrf2n"], doc),
+        "GMRF(zeros(5),2,'neumann',order=2).logpdf(0) = %r with _rank %d; documented (rank 3, pseudo-determinant) %r" % (w["gmrf2n"], w["gmrf2n_rank"], doc))
     return out
-
-
-def gaussian_witnesses(cuqi):
-    return {}
 
 
 # ------------------------------------------------------------------------------------------------
 def run(ctx):
     import cuqi
     state = detect_state(cuqi)
-    ctx.note("state of repairable defects: uniform_fixed=%s slap_fixed=%s cauchy_cdf_fixed=%s" % (
-        state["uniform_fixed"], state["slap_fixed"], state["cauchy_cdf_fixed"]))
+    ctx.note("state of repairable defects: uniform_fixed=%s slap_fixed=%s cauchy_cdf_fixed=%s dia_fixed=%s" % (
+        state["uniform_fixed"], state["slap_fixed"], state["cauchy_cdf_fixed"], state["dia_fixed"]))
     cases, stats = [], {}
     scalar_family_cases(ctx, cuqi, state, cases, stats)
+    gaussian_cases(ctx, cuqi, state, cases, stats)
+    mrf_cases(ctx, cuqi, state, cases, stats)
     return Result(cases=cases, rule=RULE, extra={"c04_stats": stats, "c04_state": {k: v for k, v in state.items() if k != "witness"}},
-                  assumptions=["lnGamma at shapes that are not integers or half-integers enters as a certificate value from scipy.special.gammaln, cross-checked against libm lgamma to 1e-12"])
+                  assumptions=["lnGamma at shapes that are not integers or half-integers enters as a certificate value from scipy.special.gammaln, cross-checked against libm lgamma to 1e-12",
+                               "the difference operator matrices of cuqi.operator (subject of C20) are re-derived by the model and compared entry-wise through D(x-loc); the oracle for the MRFs takes the operator's matrix as given",
+                               "exact inverses / determinants / quadratic forms of the Gaussian inputs are computed by the harness in Fractions and re-checked by the model over Q (certificates)"])
+
+
+def recheck(cuqi, meta):
+    """re-run one case on the implementation and apply the independent oracle: (observed, fail, signature)"""
+    k = meta.get("kind")
+    if k == "scalar":
+        obs = scalar_observe(cuqi, meta)
+        fail, sig, exp = scalar_oracle(meta["family"], meta["params"], meta["x"], meta["dim"], meta["method"], obs, meta["forms"])
+        return {"value": obs, "documented": exp}, fail, sig
+    if k == "gaussian":
+        ob = g_observe(cuqi, meta)
+        fail, sig = g_oracle(meta, ob)
+        if ob["outcome"] == "value" and not meta.get("malformed"):
+            ob["documented"] = g_documented(meta)[meta["method"]]
+        return ob, fail, sig
+    if k == "mrf":
+        ob = mrf_observe(cuqi, meta)
+        D = ob.pop("D")
+        exp = mrf_documented(meta, D)
+        fail = None if close(ob["value"], exp, 1e-8) else "%s.%s = %r, documented %r" % (meta["family"], meta["method"], ob["value"], exp)
+        ob["documented"] = exp
+        return ob, fail, "%s.%s|%s" % (meta["family"], meta["method"], meta["bc"])
+    return None, None, ""
 
 
 def oracle(ctx, meta):
-    return None
+    import cuqi
+    try:
+        ob, fail, sig = recheck(cuqi, meta)
+    except Exception as e:
+        return "re-running the case on the implementation raised %r" % (e,)
+    return fail
 
 
 def classify(meta, detail):
-    return "%s.%s" % (meta.get("family", meta.get("kind", "C04")), meta.get("method", "logpdf"))
+    k = meta.get("kind")
+    if k == "scalar":
+        return "%s.%s|%s" % (meta["family"], meta["method"].replace("_own", ""), meta.get("forms", ""))
+    if k == "gaussian":
+        return "Gaussian.%s|%s:%s" % (meta.get("method"), meta.get("form"), meta.get("gkind"))
+    if k == "mrf":
+        return "%s.%s|%s%s" % (meta["family"], meta["method"], meta["bc"], ":order%d" % meta["order"] if meta["family"] == "GMRF" else "")
+    return "C04|" + str(meta.get("witness", ""))
 
 
 def replay(ctx, meta):
-    import json
-    print(json.dumps(meta, indent=1)[:6000])
+    import json, cuqi
+    m = meta.get("meta", meta)
+    print(json.dumps({k: v for k, v in meta.items() if k != "meta"}, indent=1)[:3000])
+    print("case:", json.dumps(m, default=str)[:3000])
+    if "kind" not in m:
+        for sig, (fails, detail) in known_witnesses(ctx).items():
+            if sig == m.get("witness"):
+                print("witness %s: still fails = %s; %s" % (sig, fails, detail))
+        return 0
+    ob, fail, sig = recheck(cuqi, m)
+    print("implementation now:", ob)
+    print("stored observation:", m.get("observed"))
+    print("independent oracle:", fail or "property holds on this input")
     return 0
